@@ -159,4 +159,50 @@ example :
     let cs : List Cls := [⟨[65], [], [], [], [], none⟩, ⟨[66], [[65]], [], [], [], none⟩, ⟨[67], [[66]], [], [], [], none⟩]
     [65] ∈ ancestors cs cs.length [67] ∧ (findCls cs [65]).isSome := by decide
 
+/-! ### Non-vacuity: a concrete meta-model that obeys every rule, and rejected ones -/
+
+/-- enumeration `E {L}`; class `A {x: int; m(); invariant "d"}`; class `B(A) {y: Optional[List[A]]; invariant "e"}`
+with the constructor `(x: int, y: Optional[List[A]] = None)`; constant `K`; pattern function `f` = `^a$`;
+the docstring of `B` refers to `:attr:`x``, `:class:`E``, `:const:`K`` and `:attr:`E.L``. -/
+def exampleMM : MM := {
+  enums := [⟨[69], [[76]]⟩],
+  classes := [⟨[65], [], [⟨[120], .prim [105, 110, 116]⟩], [[109]], [[100]], some [⟨[120], .prim [105, 110, 116], .absent⟩]⟩,
+              ⟨[66], [[65]], [⟨[121], .opt (.list (.ref [65]))⟩], [], [[101]],
+                some [⟨[120], .prim [105, 110, 116], .absent⟩, ⟨[121], .opt (.list (.ref [65])), .none⟩]⟩],
+  consts := [[75]],
+  fns := [⟨[102], some [94, 97, 36]⟩],
+  docs := [⟨some [66], [.attr [120], .cls [69], .const [75], .attr2 [69] [76]]⟩] }
+
+theorem example_accepted : check exampleMM = [] := by
+  have h1 : stage1 exampleMM = [] := by decide
+  have h2 : stage2 exampleMM = [] := by decide
+  have h3 : stage3 exampleMM = [] := by decide
+  have h4 : stage4 exampleMM = [] := by decide
+  have h5 : stage5 exampleMM = [] := by
+    simp [stage5, dfsCycle, visitAll, visit, parentsOf, findCls, exampleMM]
+  have h6 : stage6 exampleMM = [] := by decide
+  have h7 : stage7 exampleMM = [] := by decide
+  have h8 : stage8 exampleMM = [] := by decide
+  simp [check, stages, firstFailing, h1, h2, h3, h4, h5, h6, h7, h8]
+
+/-- The specification is satisfiable by a non-trivial meta-model (inheritance, optional list
+property, invariants, pattern, references). -/
+theorem example_obeys_rules : Spec exampleMM := (check_sound_complete exampleMM).mp example_accepted
+
+/-- `A(B)`, `B(A)`: rejected with `cycle`. -/
+theorem cyclic_rejected :
+    check { enums := [], classes := [⟨[65], [[66]], [], [], [], none⟩, ⟨[66], [[65]], [], [], [], none⟩],
+            consts := [], fns := [], docs := [] } = [.cycle] := by
+  simp [check, stages, firstFailing, stage1, stage2, stage3, stage4, stage5, dfsCycle, visitAll, visit, parentsOf,
+    findCls, classParse, scanProps, scanMethods, Cls.propNames, dups, symbolNames, parsedClasses, MM.enumNames,
+    MM.fnNames, MM.typeNames, MM.classNames, report, parentError, reservedTypeName, lower, lowerC,
+    Gen.Rules.typePrefixes]
+  decide
+
+/-- A property typed `List[List[Optional[int]]]` (with the matching constructor): rejected with `listOfOptional`. -/
+theorem nested_list_of_optional_rejected :
+    stage8 { enums := [], classes := [⟨[65], [], [⟨[120], .list (.list (.opt (.prim [105, 110, 116])))⟩], [], [],
+              some [⟨[120], .list (.list (.opt (.prim [105, 110, 116]))), .absent⟩]⟩],
+             consts := [], fns := [], docs := [] } = [.listOfOptional] := by decide
+
 end AasVerif.Props.C06
